@@ -76,13 +76,18 @@ func runE2E(casesPath string, nrand int) {
 	defer os.RemoveAll(dir)
 	lst := e2e.BuildListener(e2e.ListenerSpec{Name: "c07l", Addr: laddr, Downstream: "Auto", Upstream: "Http1",
 		Routes: []e2e.RouteSpec{{Prefix: "/", Cluster: "c07c", TimeoutMs: 60000}}})
-	m := e2e.StartMosn(e2e.BuildConfig([]v2.Listener{lst},
+	faddr := e2e.FreeAddr()
+	lstFixed := e2e.BuildListener(e2e.ListenerSpec{Name: "c07f", Addr: faddr, Downstream: "Http1", Upstream: "Http1",
+		Routes: []e2e.RouteSpec{{Prefix: "/", Cluster: "c07c", TimeoutMs: 60000}}})
+	m := e2e.StartMosn(e2e.BuildConfig([]v2.Listener{lst, lstFixed},
 		e2e.BuildClusters([]e2e.ClusterSpec{{Name: "c07c", Hosts: []string{up.Addr}}}), e2e.ScratchLog(dir)))
 	defer m.Close()
 	vh.Must(e2e.WaitListen(laddr, 10*time.Second), "mosn listener")
+	vh.Must(e2e.WaitListen(faddr, 10*time.Second), "mosn listener (fixed protocol)")
+	addrOf := map[string]string{"auto": laddr, "fixed": faddr}
 
 	base := 100
-	one := func(cls string, shapes []int, cutsOf func(r *run) []int) {
+	one := func(cls string, mode string, shapes []int, cutsOf func(r *run) []int) {
 		if givenUp() {
 			return
 		}
@@ -90,10 +95,10 @@ func runE2E(casesPath string, nrand int) {
 		base += len(shapes)
 		r := prepare(sp)
 		cuts := cutsOf(r)
-		tr.Emit(vh.Ev{"ev": "run", "proto": "Http1", "cls": cls, "lens": r.lens, "units": r.lens, "auto": true,
+		tr.Emit(vh.Ev{"ev": "run", "proto": "Http1", "cls": cls, "lens": r.lens, "units": r.lens, "mode": mode,
 			"conts": 0, "shapes": shapes, "cuts": cuts})
 		nruns++
-		c, err := net.DialTimeout("tcp", laddr, 5*time.Second)
+		c, err := net.DialTimeout("tcp", addrOf[mode], 5*time.Second)
 		if err != nil {
 			vh.Must(err, "dial mosn")
 		}
@@ -211,12 +216,17 @@ func runE2E(casesPath string, nrand int) {
 	}
 	for ci, z := range zs {
 		z := z
-		one("e2e-zones", shapesFor(z.Frames, ci), func(r *run) []int { return concreteCuts(r, z.Frames, z.Cuts) })
+		if z.Pre > 0 {
+			continue
+		}
+		for _, mode := range []string{"fixed", "auto"} {
+			one("e2e-zones", mode, shapesFor(z.Frames, ci), func(r *run) []int { return concreteCuts(r, z) })
+		}
 	}
 	rng := rand.New(rand.NewSource(vh.Seed() + 7))
 	for k := 0; k < nrand; k++ {
 		shapes := []int{1, 0, 2, 3, 0, 1}
-		one("e2e-random", shapes, func(r *run) []int {
+		one("e2e-random", []string{"fixed", "auto"}[k%2], shapes, func(r *run) []int {
 			cuts, pos, n := []int{}, 0, len(r.all)
 			for pos < n {
 				step := 1 + rng.Intn(60)
